@@ -230,6 +230,39 @@ try:
     out["setparam"] = {"proto": [_SetGen(tags=frozenset(["alpha", "beta", "gamma", "delta", "eps"]), k=i).name for i in range(3)]}
 except Exception as e:
     out["setparam"] = {"proto": ["exc:" + type(e).__name__]}
+# hdl21.flatten.flatten of a three-level hierarchy with many internal nets
+def _ladder():
+    from hdl21.flatten import flatten
+    Cell = h.Module(name="Cell")
+    Cell.a, Cell.b, Cell.g = h.Port(), h.Port(), h.Port()
+    Cell.mid, Cell.tap, Cell.q = h.Signal(), h.Signal(), h.Signal()
+    Cell.r1 = h.R(r=1)(p=Cell.a, n=Cell.mid)
+    Cell.r2 = h.R(r=2)(p=Cell.mid, n=Cell.tap)
+    Cell.r3 = h.R(r=3)(p=Cell.tap, n=Cell.q)
+    Cell.r4 = h.R(r=4)(p=Cell.q, n=Cell.b)
+    Cell.c1 = h.C(c=1)(p=Cell.mid, n=Cell.g)
+    Cell.c2 = h.C(c=1)(p=Cell.tap, n=Cell.g)
+    Row = h.Module(name="Row")
+    Row.i, Row.o, Row.g = h.Port(), h.Port(), h.Port()
+    Row.n1, Row.n2, Row.zeta, Row.alpha = h.Signal(), h.Signal(), h.Signal(), h.Signal()
+    Row.c0 = Cell(a=Row.i, b=Row.n1, g=Row.g)
+    Row.c1 = Cell(a=Row.n1, b=Row.n2, g=Row.g)
+    Row.c2 = Cell(a=Row.n2, b=Row.zeta, g=Row.g)
+    Row.c3 = Cell(a=Row.zeta, b=Row.alpha, g=Row.g)
+    Row.c4 = Cell(a=Row.alpha, b=Row.o, g=Row.g)
+    Top = h.Module(name="Ladder")
+    Top.inp, Top.out, Top.gnd = h.Port(), h.Port(), h.Port()
+    Top.x, Top.y = h.Signal(), h.Signal()
+    Top.r0 = Row(i=Top.inp, o=Top.x, g=Top.gnd)
+    Top.r1 = Row(i=Top.x, o=Top.y, g=Top.gnd)
+    Top.r2 = Row(i=Top.y, o=Top.out, g=Top.gnd)
+    f = flatten(Top)
+    pkg = h.to_proto(f)
+    return hashlib.blake2b(pkg.SerializeToString(deterministic=True), digest_size=10).hexdigest()
+try:
+    out["flatten"] = {"proto": _ladder()}
+except Exception as e:
+    out["flatten"] = {"proto": "exc:" + type(e).__name__}
 # the repository's examples and built-in generators (Series, MosStack, ...), exported one by one
 from profiles import examples
 import io
@@ -250,6 +283,12 @@ for s in seeds[: max(10, len(seeds) // 3)]:
                     d += ":" + hashlib.blake2b(dest.getvalue().encode(), digest_size=6).hexdigest()
                 except Exception as e:
                     d += ":exc"
+            try:  # and flattened, where hdl21.flatten supports the design
+                from hdl21.flatten import flatten
+                fp = h.to_proto(flatten(m))
+                d += ":" + hashlib.blake2b(fp.SerializeToString(deterministic=True), digest_size=6).hexdigest()
+            except Exception as e:
+                d += ":flat-exc-" + type(e).__name__
             digs.append([op[1], d])
         except Exception as e:
             digs.append([op[1], "exc:" + type(e).__name__])
@@ -291,7 +330,7 @@ def layer2_run(seeds, hash_seeds, verif_seed=0, timeout=600):
         results.append((hs, junk, json.loads(line[0][6:])))
     findings = []
     ref_hs, ref_junk, ref = results[0]
-    keys = list(seeds) + ["ex" + str(s) for s in seeds] + ["setparam"]
+    keys = list(seeds) + ["ex" + str(s) for s in seeds] + ["setparam", "flatten"]
     for hs, junk, r in results[1:]:
         for s in keys:
             if r.get(str(s)) != ref.get(str(s)):
